@@ -75,6 +75,11 @@ type Query struct {
 	// OnlyNilErrorReturns (with ExitIsTarget): only returns that may yield a nil error
 	// count (returns whose last result is syntactically a non-nil error value are skipped).
 	OnlyNilErrorReturns bool
+	// FailObj: follow only the FAILURE edge of the error bound at the Start event: while the
+	// variable has not been assigned again, edges on which it is known nil are not followed
+	// (a later `err = g(); if err != nil` on the same variable is a different error and does
+	// not restrict the paths).
+	FailObj types.Object
 	// WholeFacts: also hand the undecomposed branch conditions to Exempt (for partial evaluation).
 	WholeFacts bool
 	// StrictOK: a barrier call that appears directly as a result of a return statement does
@@ -109,6 +114,8 @@ type pstate struct {
 	ret   int8
 	nn    types.Object
 	nnVal int8
+	// failLive: the error bound at the Start event (Query.FailObj) has not been reassigned yet
+	failLive bool
 }
 
 const (
@@ -378,6 +385,7 @@ func (s *Scope) Run(q Query) QResult {
 		}
 		endsInReturn := false
 		endsNoReturn := false
+		var startTop ast.Node
 		helperFailed := false // `return helper(…)` right after the spliced helper returned a non-nil error
 		for ni, top := range xb.nodes {
 			if ni == 0 && cur.ret != 0 {
@@ -399,6 +407,15 @@ func (s *Scope) Run(q Query) QResult {
 					}
 				}
 			}
+			if cur.failLive && top != startTop {
+				if as, ok := top.(*ast.AssignStmt); ok {
+					for _, l := range as.Lhs {
+						if id, ok := l.(*ast.Ident); ok && s.Info.ObjectOf(id) == q.FailObj {
+							cur.failLive = false
+						}
+					}
+				}
+			}
 			events(top, func(sub ast.Node) {
 				if q.Start != nil && q.Start(sub, top) {
 					// an event that is both Target and Start (loop progress queries) is
@@ -409,6 +426,8 @@ func (s *Scope) Run(q Query) QResult {
 					cur.started = true
 					cur.kind = stClear
 					cur.obj = nil
+					cur.failLive = q.FailObj != nil
+					startTop = top
 					return
 				}
 				if !cur.started {
@@ -482,6 +501,20 @@ func (s *Scope) Run(q Query) QResult {
 			}
 			if q.Exempt != nil && len(facts) > 0 && q.Exempt(facts) {
 				continue
+			}
+			if cur.failLive {
+				skip := false
+				for _, f := range facts {
+					if f.Tag != nil || f.Whole {
+						continue
+					}
+					if o, trueNonNil, ok := nilTest(s.Info, f.Expr); ok && o == q.FailObj && f.Val != trueNonNil {
+						skip = true // the error is nil on this edge
+					}
+				}
+				if skip {
+					continue
+				}
 			}
 			nst := cur
 			nst.blk = int32(succ)
